@@ -38,6 +38,8 @@ W, ident, depth, fanout, root_sleep, child_sleep = sys.argv[1], sys.argv[2], int
 role = sys.argv[7] if len(sys.argv) > 7 else "root"
 flags = sys.argv[8].split(",") if len(sys.argv) > 8 else []
 threaded = "threaded" in flags
+if "setsid" in flags and role != "root":
+    os.setsid()        # a descendant in a session and process group of its own (still a descendant: by parent pid)
 if "stubborn" in flags and role != "root":
     import signal
     signal.signal(signal.SIGTERM, signal.SIG_IGN)    # a descendant that ignores a polite request to terminate
@@ -172,14 +174,14 @@ def direct_part(chk, exprs):
         kind = rng.choice(["timeout", "timeout", "in-time", "no-limit"])
         limit = (rng.choice([1, 2]) if depth < 2 else 2) if kind != "no-limit" else -1
         scen.append(dict(id="d%d" % i, depth=depth, fanout=fan, kind=kind, limit=limit, threaded=(i % 4 == 1 and depth > 0),
-                         stubborn=(i % 3 == 0 and depth > 0),
+                         stubborn=(i % 3 == 0 and depth > 0), setsid=(i % 3 == 1 and depth > 0),
                          root_sleep=(30.0 if kind == "timeout" else rng.choice([0.1, 0.4])),
                          child_sleep=(60.0 if kind == "timeout" else 0.3)))
 
     def one(sc):
         cmd = "%s -S %s %s %s %d %d %s %s" % (core.PY, os.path.join(W, "tree.py"), W, sc["id"], sc["depth"], sc["fanout"],
                                                sc["root_sleep"], sc["child_sleep"])
-        fl = [f_ for f_ in ("threaded", "stubborn") if sc.get(f_)]
+        fl = [f_ for f_ in ("threaded", "stubborn", "setsid") if sc.get(f_)]
         if fl:
             # threaded: children are forked by a thread that is not the main thread; stubborn: descendants ignore SIGTERM/SIGHUP
             cmd += " root " + ",".join(fl)
@@ -207,7 +209,8 @@ def direct_part(chk, exprs):
     skipped = []
     try:
         for sc in done:
-            case = {k: sc[k] for k in ("id", "depth", "fanout", "kind", "limit", "root_sleep", "threaded", "stubborn")}
+            case = {k: sc[k] for k in ("id", "depth", "fanout", "kind", "limit", "root_sleep", "threaded", "stubborn", "setsid")}
+            chk.count("direct_trees_with_descendants_in_their_own_session", bool(sc["setsid"]))
             rc, out, _ = sc["result"]
             chk.count("direct_trees_with_descendants_ignoring_SIGTERM", bool(sc["stubborn"]))
             want = sum(sc["fanout"] ** k for k in range(sc["depth"] + 1))
